@@ -61,6 +61,7 @@ int main(int argc, char **argv) {
     int ts = strchr(argv[5], 't') != NULL, inj_at = strchr(argv[5], 'a') != NULL, inj_from = strchr(argv[5], 'f') != NULL;
     FILE *in = fopen(argv[1], "r");
     if (!in) return 2;
+    FILE *devnull = fopen("/dev/null", "w");
     vh_open(argv[2]);
     vh_install_handlers();
     vh_ledger_on = 1; vh_quarantine = 1;
@@ -172,6 +173,7 @@ int main(int argc, char **argv) {
                 if (ts) L->unlock(L);
                 n = ok ? nwalk : 0;
             }
+            else if (!strcmp(op, "debug")) { ok = K == 1 ? Q->debug(Q, devnull) : K == 2 ? S->debug(S, devnull) : K == 3 ? G->debug(G, devnull) : L->debug(L, devnull); }
             else if (!strcmp(op, "sizes")) {
                 rv = (int) (K == 1 ? Q->size(Q) : K == 2 ? S->size(S) : K == 3 ? G->size(G) : L->size(L));
                 n = (long) (K == 3 ? G->datasize(G) : L->datasize(L));
